@@ -236,6 +236,9 @@ func failureGuardsMonotone(r *Run, rule string) {
 			if !ok && P.refusalRestatesCallee(s, pinned) {
 				ok = true
 			}
+			if !ok && P.deadNilBranch(P.LocalGuards(s.ret)) {
+				ok = true // `if acc == nil` right after a constructor that returned no error: provably dead
+			}
 			if !ok {
 				fresh++
 				r.Viol(rule, fmt.Sprintf("new-refusal:%s#%d", n, i), P.InstrPos(s.ret), n+" now fails under {"+strings.Join(s.guards, " ; ")+"} — the test(s) {"+strings.Join(unknown, " ; ")+"} decided nothing in this function on the pinned tree: a new cause of refusal")
@@ -737,6 +740,23 @@ func (P *Prog) panicSiteGuards() map[string][]panicSite {
 	return out
 }
 
+// panicScope: the rule is armed for the module keepers, handlers and genesis code only — the code that runs inside
+// BeginBlock / EndBlock / DeliverTx with consensus state in hand. In types/ and store/ the sanity panics are spelled
+// over arithmetic and byte-slice terms that equivalent rewrites respell (six false alarms on 378 refactorings when the
+// rule was armed everywhere), so there it would be a brittle proxy; a new panic there is not reported (round-11 miss
+// C18_bb, an overflow pre-check in Uint.Mul that is one bit too strict, stays a miss).
+func panicScope(f *ssa.Function) bool {
+	top := enclosingTop(f)
+	if top.Pkg == nil {
+		return false
+	}
+	switch short(top.Pkg.Pkg.Path()) {
+	case "x/pos", "x/pos/keeper", "x/gov", "x/gov/keeper", "x/auth", "x/auth/keeper":
+		return true
+	}
+	return false
+}
+
 func dumpPanicGuards(P *Prog) {
 	m := map[string][][]string{}
 	for n, ps := range P.panicSiteGuards() {
@@ -770,7 +790,7 @@ func panicGuardsMonotone(r *Run, rule string) {
 		if f == nil {
 			continue
 		}
-		if r.Anchors[f] || r.Anchors[enclosingTop(f)] || inScope(r.Prop, f) {
+		if (r.Anchors[f] || r.Anchors[enclosingTop(f)] || inScope(r.Prop, f)) && panicScope(f) {
 			names = append(names, n)
 		}
 	}
